@@ -309,3 +309,87 @@ fn c01_ipv4_icmp_short() {
 fn c01_ipv4_empty() {
     ipv4_case(Some(6), 0, 20)
 }
+
+fn ipv4_events(proto: Option<u8>, m: usize, n: usize) {
+    let mut buf: [u8; 44] = kani::any();
+    match proto {
+        Some(p) => buf[9] = p,
+        None => kani::assume(buf[9] != 1 && buf[9] != 6 && buf[9] != 17),
+    }
+    let ip_req = Ipv4Packet::new(&buf[..20 + m]).unwrap();
+    let a4 = any_ip4();
+    let mut s_set = HashSet::new();
+    s_set.insert(IpAddr::V4(a4));
+    let s_on: bool = kani::any();
+    let mut masscanned = ms_counting([0, 0], any_mac());
+    if s_on {
+        masscanned.self_ip_list = Some(&s_set);
+    }
+    l4_rec().cfg_len = n;
+    let mut ci = ClientInfo::new();
+    let r = repl(&ip_req, &masscanned, &mut ci);
+    assert!(balanced(L_IPV4, r.is_some()), "C20: IPv4 layer did not log exactly one recv and one terminal event (send iff answered)");
+    let shown = ev(L_IPV4).ci_recv.unwrap();
+    assert!(shown.ip.src == Some(IpAddr::V4(ip_req.get_source())) && shown.ip.dst == Some(IpAddr::V4(ip_req.get_destination())), "C20: addresses shown to the logger are not the packet's");
+    // the inner layer (stub) runs strictly between this layer's recv and terminal event
+    if l4_rec().calls == 1 {
+        assert!(l4_rec().seq_at_call > ev(L_IPV4).seq_recv && l4_rec().seq_at_call < ev(L_IPV4).seq_term, "C20: inner layer not nested inside the IPv4 events");
+    }
+    kani::cover!(r.is_some(), "answered");
+    kani::cover!(r.is_none() && l4_rec().calls == 1, "dropped after layer 4");
+    kani::cover!(r.is_none() && l4_rec().calls == 0, "dropped before layer 4");
+}
+
+//# harness: c20_ipv4_events_udp
+//# props: C20
+//# tier: quick
+//# encodes: layer_3::ipv4::repl
+//# encodes: logger::MetaLogger::{ipv4_recv,ipv4_send,ipv4_drop}
+//# bounds: 20-byte IPv4 header symbolic, protocol 17, 8 transport bytes; layer-4 reply of 8 bytes or silence; self-IP list absent or {a4}
+//# stubs: layer_4::{icmpv4,tcp,udp}::repl -> contract stubs recording the event sequence number at call time
+//# cover: answered
+//# cover: dropped before layer 4
+#[kani::proof]
+#[kani::unwind(14)]
+#[kani::stub(crate::layer_4::icmpv4::repl, crate::verif_util::l4_icmpv4_stub)]
+#[kani::stub(crate::layer_4::tcp::repl, crate::verif_util::l4_tcp_stub)]
+#[kani::stub(crate::layer_4::udp::repl, crate::verif_util::l4_udp_stub)]
+fn c20_ipv4_events_udp() {
+    ipv4_events(Some(17), 8, 8)
+}
+
+//# harness: c20_ipv4_events_icmp
+//# props: C20
+//# tier: thorough
+//# encodes: layer_3::ipv4::repl
+//# encodes: logger::MetaLogger::{ipv4_recv,ipv4_send,ipv4_drop}
+//# bounds: 20-byte IPv4 header symbolic, protocol 1, 8 transport bytes; layer-4 reply of 8 bytes or silence; self-IP list absent or {a4}
+//# stubs: layer_4::{icmpv4,tcp,udp}::repl -> contract stubs recording the event sequence number at call time
+//# cover: answered
+//# cover: dropped before layer 4
+#[kani::proof]
+#[kani::unwind(14)]
+#[kani::stub(crate::layer_4::icmpv4::repl, crate::verif_util::l4_icmpv4_stub)]
+#[kani::stub(crate::layer_4::tcp::repl, crate::verif_util::l4_tcp_stub)]
+#[kani::stub(crate::layer_4::udp::repl, crate::verif_util::l4_udp_stub)]
+fn c20_ipv4_events_icmp() {
+    ipv4_events(Some(1), 8, 8)
+}
+
+//# harness: c20_ipv4_events_tcp_short
+//# props: C20
+//# tier: thorough
+//# encodes: layer_3::ipv4::repl
+//# encodes: logger::MetaLogger::{ipv4_recv,ipv4_send,ipv4_drop}
+//# bounds: 20-byte IPv4 header symbolic, protocol 6, 19 transport bytes; layer-4 reply of 20 bytes or silence; self-IP list absent or {a4}
+//# stubs: layer_4::{icmpv4,tcp,udp}::repl -> contract stubs recording the event sequence number at call time
+//# cover: answered
+//# cover: dropped before layer 4
+#[kani::proof]
+#[kani::unwind(26)]
+#[kani::stub(crate::layer_4::icmpv4::repl, crate::verif_util::l4_icmpv4_stub)]
+#[kani::stub(crate::layer_4::tcp::repl, crate::verif_util::l4_tcp_stub)]
+#[kani::stub(crate::layer_4::udp::repl, crate::verif_util::l4_udp_stub)]
+fn c20_ipv4_events_tcp_short() {
+    ipv4_events(Some(6), 19, 20)
+}
